@@ -72,7 +72,7 @@ func both(string) []string { return []string{"asm", "noasm"} }
 func init() {
 	addSpec(&propSpec{
 		ID:          "C13",
-		Rule:        "cases: one-shot lengths 0..1024 x 4 contents x 4 alignments; streaming: exhaustive carry-buffer fill 0..15 x next write {0..49,63..65,4095..4097} x following write 0..33 x {fresh, after one stripe} with Sum32 (twice) and Sum probes after every write and Reset-reuse; random partitions up to 8 MiB; totals 2^32-16..2^32+16 via state copies (thorough: one-shot on real 4 GiB buffers and a Writer trailer for 2^32+5 bytes). A cell is (part, carry, length class); every case compares against the reference so all are non-trivial.",
+		Rule:        "cases: one-shot lengths 0..1024 x 4 contents x 4 alignments; streaming: exhaustive carry-buffer fill 0..15 x next write {0..49,63..65,4095..4097} x following write 0..33 x {fresh, after one stripe} with Sum32 (twice) and Sum probes after every write and Reset-reuse; random partitions up to 8 MiB; totals 2^32-16..2^32+16 via state copies, the tail written in one write, split 1+rest, and split so that a write ends exactly on 2^32 with more writes after it (thorough: one-shot on real 4 GiB buffers and a Writer trailer for 2^32+5 bytes). A cell is (part, carry, length class); every case compares against the reference so all are non-trivial.",
 		Assumptions: baseAssumptions,
 		Require: func(rs *runState) string {
 			if rs.counters["boundary_probes"] < 66 {
@@ -129,7 +129,7 @@ func init() {
 	})
 	addSpec(&propSpec{
 		ID:          "C11",
-		Rule:        "sources as for C01 (smaller); destination lengths: every length 0..bound+3 when the bound is <= 400 (thorough 3000), else {0,1,2,n*-2..n*+2,len(src)-1..len(src)+1,bound-1,bound,bound+1,bound+7} plus seeded lengths biased just below the achievable size n*; each destination is a sub-slice of a canary-filled buffer (spare capacity) and, sampled, ends at an unmapped guard page; monitors: panic, n>len(dst), canary change, zero/err at >= bound, err with n!=0, n>0 whose dst[:n] is not a complete block for the source (reference decoder). A cell is (source class, size class, entry point, outcome, destination length relative to n*/bound).",
+		Rule:        "sources as for C01 (smaller); destination lengths: every length 0..bound+3 when the bound is <= 400 (thorough 3000), else {0,1,2,n*-2..n*+2,len(src)-1..len(src)+1,bound-1,bound,bound+1,bound+7} plus the output offsets at which the parts of the first 10-40 sequences of the encoded block end (and one less: where a room check is decided by one byte), plus seeded lengths biased just below the achievable size n*; each destination is a sub-slice of a canary-filled buffer (spare capacity) and, sampled, ends at an unmapped guard page; monitors: panic, n>len(dst), canary change, zero/err at >= bound, err with n!=0, n>0 whose dst[:n] is not a complete block for the source (reference decoder). A cell is (source class, size class, entry point, outcome, destination length relative to n*/bound).",
 		Assumptions: baseAssumptions,
 	})
 }
@@ -191,7 +191,7 @@ func init() {
 }
 
 func init() {
-	rtRule := "configurations: the full product 4 block sizes x block checksum x content checksum x content size x Writer concurrency {1,2,4,GOMAXPROCS} x legacy (256), level rotated over {Fast,Level1..9} (thorough: every level for every configuration); inputs: empty, one byte, block size -1/=/+1, several blocks (exact multiples too), incompressible, highly compressible, contents whose block / content XXH32 is 0 (crafted by inverting XXH32); delivery: one Write, random partitions, partitions with Flush in between, one ReadFrom from a fragmenting source. "
+	rtRule := "configurations: the full product 4 block sizes x block checksum x content checksum x content size x Writer concurrency {1,2,4,GOMAXPROCS} x legacy (256), level rotated over {Fast,Level1..9} (thorough: every level for every configuration); inputs: empty, one byte, block size -1/=/+1, several blocks (exact multiples too), incompressible, highly compressible, contents whose block / content XXH32 is 0 (crafted by inverting XXH32), content sizes for which the header checksum byte is 0x00, flushed message streams in which a block's size word equals the number of bytes decoded so far, and a three-frame script on one reused Writer (some content, an empty frame, a few bytes; each sink judged on its own); delivery: one Write, random partitions, partitions with Flush in between, one ReadFrom from a fragmenting source. "
 	addSpec(&propSpec{
 		ID:          "C02",
 		Rule:        rtRule + "Each emitted stream is read back by fresh Readers with concurrency {1,2,4,GOMAXPROCS} through WriteTo and Read with small / >= block / mixed buffer-size sequences; judged: every Writer call returned nil, decoded bytes equal the input, clean end of stream. A cell is (configuration, input class, delivery, reader concurrency, read mode).",
@@ -222,7 +222,7 @@ func init() {
 	})
 	addSpec(&propSpec{
 		ID:          "C05",
-		Rule:        seedRule + "(small, non-legacy seeds). Mutators: every single-bit flip of every structural field (header fields also with the header checksum repaired), block delete / duplicate / swap / foreign insert / splice (plain and with the content checksum repaired), seeded payload bit flips (optionally with the block checksum repaired), 2-3-bit flips, byte substitutions, hostile field overwrites. Each mutant is read with 5 (thorough 9) combinations of concurrency {1,2,4} x {Read small, Read >= block, WriteTo}. Whenever the Reader ends cleanly, the independent parser is run on exactly the consumed bytes and must accept them, end at the same offset and yield the same output. A cell is (seed, mutator, field, outcome stage, concurrency, read mode).",
+		Rule:        seedRule + "(small, non-legacy seeds). Mutators: every single-bit flip of every structural field (header fields also with the header checksum repaired), block delete / duplicate / swap / foreign insert / splice (plain and with the content checksum repaired), seeded payload bit flips (optionally with the block checksum repaired), 2-3-bit flips, byte substitutions, hostile field overwrites, special words inserted at block boundaries, the first match offset of every compressed block rewritten to reach before the block (block checksum repaired). Each mutant is read with 5 (thorough 9) combinations of concurrency {1,2,4} x {Read small, Read >= block, WriteTo}. Whenever the Reader ends cleanly, the independent parser is run on exactly the consumed bytes and must accept them, end at the same offset and yield the same output. A cell is (seed, mutator, field, outcome stage, concurrency, read mode).",
 		Assumptions: append([]string{"header acceptance follows C19's rule (version, reserved and DictID bits are not judged); block grammar in the frame oracle is the lenient one; mutants that turn the first magic into the legacy magic are counted, not judged (legacy streams have no integrity fields)"}, baseAssumptions...),
 		Require: func(rs *runState) string {
 			if rs.counters["mutants_accepted_by_reader"] == 0 {
@@ -236,7 +236,7 @@ func init() {
 func init() {
 	addSpec(&propSpec{
 		ID:          "C07",
-		Rule:        "inputs: random bytes (with and without a plausible magic/header), every structural bit flip and 150 seeded mutants of each seed frame (re-used from C05 without an oracle), 10 families of grammar-built frames with hostile fields (block size 2^31-1, stored 2^31-1, content size 2^64-1, block just above the maximum, gigantic literal / match lengths, skippable length 2^32-1, legacy oversized blocks, 5000 empty blocks), first-word sweep (all 256 words 0x184D2Axx, every 1- and 2-bit neighbour of the magics, seeded random words), skippable frames in front of valid frames (all 16 magics, lengths 0..70000), and streamed repetitions of one field 10M (thorough 25M) times: legacy magic, skippable frames, empty stored blocks, one-byte blocks. Each with concurrency 1 and 4 through Read and WriteTo, in child processes. Monitors: panic, child death (stack overflow, fault), runaway loop / no progress, deadlock state, allocation profile (no allocation made directly by library code larger than 2 x the block maximum the input declares + 256 KiB), goroutine stack growth (<= 64 MiB), peak RSS as an observation, ErrInvalidFrame for non-magics, exact skipping for the 16 skippable magics. A cell is (input family, outcome, concurrency, read mode).",
+		Rule:        "inputs: random bytes (with and without a plausible magic/header), every structural bit flip and 150 seeded mutants of each seed frame (re-used from C05 without an oracle), 10 families of grammar-built frames with hostile fields (block size 2^31-1, stored 2^31-1, content sizes 2^64-1 / 2^63-1 / 2^62 / 2^40 / 2^32 / 2^30, block just above the maximum, gigantic literal / match lengths, skippable length 2^32-1, legacy oversized blocks, 5000 empty blocks), first-word sweep (all 256 words 0x184D2Axx, every 1- and 2-bit neighbour of the magics, seeded random words), skippable frames in front of valid frames (all 16 magics, lengths 0..70000), and streamed repetitions of one field 10M (thorough 25M) times: legacy magic, skippable frames, empty stored blocks, one-byte blocks. Each with concurrency 1 and 4 through Read and WriteTo (destinations rotate: bare io.Writer, a writer with the optional Grow method that records what it is asked to reserve, a real bytes.Buffer), in child processes. Monitors: panic, child death (stack overflow, fault), runaway loop / no progress, deadlock state, allocation profile (no allocation made directly by library code, and no Grow reservation it asks a destination for, larger than 2 x the block maximum the input declares + 256 KiB), goroutine stack growth (<= 64 MiB), peak RSS as an observation, ErrInvalidFrame for non-magics, exact skipping for the 16 skippable magics. A cell is (input family, outcome, concurrency, read mode).",
 		Assumptions: append([]string{"'never blocks forever' is decided as bounded progress: sources are finite and budgeted; a hang shows up as the runtime's deadlock report, a budget overrun or a watchdog dump in a deadlock state", "memory monitor: the runtime allocation profile at sampling rate 1 attributes every heap allocation to its call stack; only allocations whose first non-runtime frame is library code are judged (a caller-supplied writer growing its buffer is not the library); goroutine stacks are watched through MemStats.StackInuse"}, baseAssumptions...),
 		Watchdog:    func(tier string) int { return 1800 },
 		Require: func(rs *runState) string {
@@ -254,7 +254,7 @@ func init() {
 func init() {
 	addSpec(&propSpec{
 		ID:          "C17",
-		Rule:        "call histories: ALL sequences of length <= 4 (thorough 5) over the Writer alphabet {Apply(BlockChecksum|BlockSize256K|Size777|NoChecksum|LegacyOn|LegacyOff), Write(0|100|65536|70000), ReadFrom(1000), Flush, Close, Reset(same sink|new sink)} on a sequential and on a concurrent (4) Writer, and over the Reader alphabet {Apply(Concurrency), Read(0|100|70000), ReadUntilEOF, WriteTo, Size, Reset(onto frame A | legacy frame B | block-checksummed frame C)} on sequential and concurrent Readers with and without trailing bytes after the frame; plus 3000 (thorough 40000) seeded random sequences of length 5..12 each. Each sequence runs in a child process on the main goroutine (runtime deadlock detector), with budgeted sinks and sources (runaway-loop detector). The model asserts only the property's clauses: no hang/panic; a nil Close => the bytes since the last Reset are one valid frame with the accepted data once and in order and the options of the epoch; Apply refused while writing; an epoch after Reset equals a fresh object (differential replay of return values and bytes); writes after Close fail without output, second Close emits nothing; after end of stream Read = (0, io.EOF) without consuming the source; after Flush on a sequential Writer the sink decodes to everything written. A cell is (object, mode, abstract shape of the sequence).",
+		Rule:        "call histories: ALL sequences of length <= 4 (thorough 5) over the Writer alphabet {Apply(BlockChecksum|BlockSize256K|Size with a zero header checksum byte|NoChecksum|LegacyOn|LegacyOff), Write(0|100|65536|70000), ReadFrom(1000), Flush, Close, Reset(same sink|new sink)} on a sequential and on a concurrent (4) Writer, and over the Reader alphabet {Apply(Concurrency), Read(0|100|70000), ReadUntilEOF, WriteTo, Size, Reset(onto frame A | legacy frame B | block-checksummed frame C | dependent-block frame D | frames E, F that are invalid on their own because their first match reaches before the start of the frame)} on sequential and concurrent Readers with and without trailing bytes after the frame; plus 3000 (thorough 40000) seeded random sequences of length 5..12 each. Each call runs under the in-process monitor (deadlock: every goroutine inside the library parked, stable over five snapshots; runaway loop: more than 200000 hook sites passed by one call), with budgeted sinks and sources; every history ends with an unjudged Close / drain. The model asserts only the property's clauses: no hang/panic; a nil Close => the bytes since the last Reset are one valid frame with the accepted data once and in order and the options of the epoch; Apply refused while writing; an epoch after Reset equals a fresh object (differential replay of return values and bytes); writes after Close fail without output, second Close emits nothing; after end of stream Read = (0, io.EOF) without consuming the source; after Flush on a sequential Writer the sink decodes to everything written. A cell is (object, mode, abstract shape of the sequence).",
 		Assumptions: append([]string{"calls the property is silent about (ReadFrom after Write, WriteTo after a partial Read, ...) may return anything except a hang or a panic"}, baseAssumptions...),
 		MaxDeaths:   100000,
 		Watchdog:    func(tier string) int { return 600 },
@@ -318,7 +318,7 @@ func init() {
 func init() {
 	addSpec(&propSpec{
 		ID:          "C08",
-		Rule:        "built with -race and the verif hooks on (block pool replaced by a quarantining pool that poisons released buffers with 0xDB and verifies the poison when they are handed out again, LIFO or FIFO; seeded scheduling perturbation at 10 yield sites between the pipeline's critical sections in three modes: jitter, one site slowed for the whole run, none; event log). Writer: 7 call scripts {Write partitions, Write+Flush mid-stream, ReadFrom, Close->Reset->reuse, Reset without Close, sink failing at a seeded call, slow sink} x concurrency {2,3,4,16} x block counts {0,1,2,c-1,c,c+1,4c} (pairwise distinct 64 KiB blocks, so a reorder shows in the bytes) x 6 (thorough 120) perturbation seeds, OnBlockDone installed; Reader: concurrency {2,4,16} x {Read small, Read >= block, WriteTo} x {valid frame, a flipped payload bit (early decoding error), source failing at a seeded call} x 2 frame sizes x seeds. Monitors: race detector reports with a library frame (logs parsed, de-duplicated); poison integrity (write after release), poison in output (read after release), double release; sink bytes equal to the sequential Writer's for the same calls; event log FIFO and exactly-once; in-process deadlock monitor (every library goroutine parked); goroutine census after Close / after EOF or error (parked leftovers = leak). A cell is (object, script/condition, concurrency, block count, perturbation mode) or a distinct interleaving (hash of the hook event order).",
+		Rule:        "built with -race and the verif hooks on (block pool replaced by a quarantining pool that poisons released buffers with 0xDB and verifies the poison when they are handed out again, LIFO or FIFO; seeded scheduling perturbation at 10 yield sites between the pipeline's critical sections in three modes: jitter, one site slowed for the whole run, none; event log). Writer: 7 call scripts {Write partitions, Write+Flush mid-stream, ReadFrom, Close->Reset->reuse, Reset without Close, sink failing at a seeded call, slow sink} x concurrency {2,3,4,16} x block counts {0,1,2,c-1,c,c+1,4c} (pairwise distinct 64 KiB blocks, so a reorder shows in the bytes) x 6 (thorough 120) perturbation seeds, content / block checksums, legacy frames and content sizes (one with a zero header checksum byte) varied, OnBlockDone installed; Reader: concurrency {2,4,16} x {Read small, Read >= block, WriteTo} x {valid frame, a flipped payload bit (early decoding error), source failing at a seeded call, an empty block then a corrupted block, Reset onto another frame while the pipeline of the first is still running} x 2 frame sizes x seeds. Monitors: race detector reports with a library frame (logs parsed, de-duplicated); poison integrity (write after release), poison in output (read after release), double release; sink bytes equal to the sequential Writer's for the same calls; event log FIFO and exactly-once; in-process deadlock monitor (every library goroutine parked); goroutine census after Close / after EOF or error (parked leftovers = leak). A cell is (object, script/condition, concurrency, block count, perturbation mode) or a distinct interleaving (hash of the hook event order).",
 		Assumptions: append([]string{"interleavings are sampled under perturbation, not enumerated; the evidence reports how many distinct ones were observed", "goroutines left behind when the caller abandons a Reader mid-stream are outside the statement and not judged"}, baseAssumptions...),
 		Variants:    func(string) []string { return []string{"race"} },
 		Watchdog:    func(tier string) int { return 3000 },
@@ -381,7 +381,7 @@ func buildLz4c(rs *runState) error {
 func init() {
 	addSpec(&propSpec{
 		ID:          "C20",
-		Rule:        "lz4c is built from cmd/lz4c against the working tree (go build -modfile with a replace directive; checked with go version -m) and run in scratch directories: flag sets from a mixed-radix enumeration over -size {default,64K,256K,1M,4M} x -bc x -sc x -l {absent,0..9} x -c {absent,1,2} (all pairs occur), file sizes {0,1,1000, block size -1/=/+1, 3 blocks+777, random} x contents {text, random, mixed} x mode bits {0600,0644,0755} x umask {022,0}, file mode and stdin/stdout mode, every sixth case also two files in one invocation. Monitors: exit status / termination; the .lz4 output parsed by the independent frame parser (C09 rules); header bits against the usage text (-bc => block checksums, '-sc disable stream checksum' => content checksum absent with the flag and present without, -size => block-size code); -l N => byte-identical to the library Writer at level N; uncompress restores bytes and permission bits. A cell is (flag set, size class, mode, umask, file/stdio).",
+		Rule:        "lz4c is built from cmd/lz4c against the working tree (go build -modfile with a replace directive; checked with go version -m) and run in scratch directories: flag sets from a mixed-radix enumeration over -size {default,64K,256K,1M,4M} x -bc x -sc x -l {absent,0..9} x -c {absent,1,2} (all pairs occur), file sizes {0,1,1000, block size -1/=/+1, 3 blocks+777, random} x contents {text, random, mixed} x mode bits {0600,0644,0755,0664,0666,0777,0640} x umask {022,0}, file mode and stdin/stdout mode, pre-existing (longer, other mode) output files, every sixth case also two files in one invocation. Monitors: exit status / termination; the .lz4 output parsed by the independent frame parser (C09 rules); header bits against the usage text (-bc => block checksums, '-sc disable stream checksum' => content checksum absent with the flag and present without, -size => block-size code); -l N => byte-identical to the library Writer at level N; uncompress restores bytes and permission bits. A cell is (flag set, size class, mode, umask, file/stdio).",
 		Assumptions: append([]string{"third-party modules of lz4c (cmdflag, progressbar, bytefmt) are used as found in the module cache"}, baseAssumptions...),
 		Pre:         buildLz4c,
 		Require: func(rs *runState) string {
